@@ -113,11 +113,11 @@ PROPS["C12"] = {
 }
 
 PROPS["C07"] = {
-    "modules": ["Gmsm.Props.C07"],
+    "modules": ["Gmsm.Props.C07", "Gmsm.Props.C07CBC"],
     "theorems": [
         "Props.C07.seq_step_encrypt", "Props.C07.seq_step_decrypt", "Props.C07.nonce_injective", "Props.C07.aad_inj",
         "Props.C07.prefix_delivery", "Props.C07.sticky_error", "Props.C07.honest_delivery", "Props.C07.sm4gcm_correct",
-        "Props.C07.decrypt_encrypt_gcm", "Gmsm.i2ospR_inj",
+        "Props.C07.decrypt_encrypt_gcm", "Gmsm.i2ospR_inj", "Props.C07.decrypt_encrypt_cbc", "Props.C07.extractPadding_padCBC", "Props.C07.cbc_all_inv",
     ],
     "gen_items": [],
     "level": "proof",
